@@ -11,9 +11,23 @@
 //                     {"c":"P","incs":[[path,start,end],..]}  include statements with the range of their Meta
 //                     {"c":"panic"}
 //   front code      stdout: {"id": .., "name": ..} — `ReportCode::ParseFail.id()` / `.name()` of the current tree, the
-//                   code Model.Front.report_of gives every report of the Includes stage (parameters pf_id / pf_name)
+//                   code Model.Front.report_of gives every report of the Includes stage (parameters pf_id / pf_name);
+//                   third pass: also "codes": {<key>: {"id","name"}} for the codes of Model.FrontStages.codes and
+//                   "compiler_version": `config::COMPILER_VERSION` (cross-check of the regenerated Gen.CompilerVersion)
+//   front stages    (third pass) the inputs of Model.FrontStages that the PARSER yields, for the files of a FileLibrary:
+//                   stdin: one JSON object per line {"files": [[file id, path], ..]} (the ids and paths of the real
+//                   FileLibrary, in id order); every file is read and parsed ALONE with its own file id by
+//                   `parser_logic::parse_file` (nothing of parse_files / FileStack / the desugarer / the lifter runs here);
+//                   stdout: {"files": [{"id","parsed","ver": [a,b,c]|null,"main": bool,"starts": [line starts]}],
+//                            "defs": ["(def KIND NAME (params P*) FILE START END <body: astdump>)", ..]}
+//                   the definitions as `TemplateData::new` / `FunctionData::new` hold them (name, parameter names, the
+//                   location of the parameter list, the file id, the body), in file-id order then source order
+use program_structure::ast::Definition;
+use program_structure::function_data::FunctionData;
+use program_structure::report_code::ReportCode;
+use program_structure::template_data::TemplateData;
 use serde_json::{json, Value};
-use verif_harness::{each_line, guarded, silence_panics};
+use verif_harness::{astdump, each_line, guarded, silence_panics};
 
 fn content(line: &str) -> String {
     let path: String = match serde_json::from_str(line) {
@@ -41,17 +55,94 @@ fn content(line: &str) -> String {
     }
 }
 
+fn def_line(kind: &str, name: &str, params: &[String], file: usize, start: usize, end: usize, body: &program_structure::ast::Statement) -> String {
+    let mut o = format!("(def {} {} (params", kind, name);
+    for p in params {
+        o.push(' ');
+        o.push_str(p);
+    }
+    o.push_str(&format!(") {} {} {} ", file, start, end));
+    astdump::stmt(&mut o, body);
+    o.push(')');
+    o
+}
+
+fn stages(line: &str) -> String {
+    let input: Value = match serde_json::from_str(line) {
+        Ok(v) => v,
+        Err(_) => return json!({"bad": "line"}).to_string(),
+    };
+    let mut files = Vec::new();
+    let mut defs: Vec<String> = Vec::new();
+    let mut elem_id = 0;
+    for entry in input["files"].as_array().cloned().unwrap_or_default() {
+        let (Some(id), Some(path)) = (entry[0].as_u64(), entry[1].as_str()) else {
+            return json!({"bad": "entry"}).to_string();
+        };
+        let id = id as usize;
+        let src = match std::fs::read_to_string(path) {
+            Ok(s) => s,
+            Err(_) => {
+                files.push(json!({"id": id, "parsed": false, "ver": null, "main": false, "starts": [0], "unreadable": true}));
+                continue;
+            }
+        };
+        // codespan's line_starts
+        let starts: Vec<usize> = std::iter::once(0).chain(src.match_indices('\n').map(|(i, _)| i + 1)).collect();
+        match guarded(|| parser::verif::parse_source(&src, id)) {
+            None => return json!({"panic": "parse_source"}).to_string(),
+            Some(Err(_)) => files.push(json!({"id": id, "parsed": false, "ver": null, "main": false, "starts": starts})),
+            Some(Ok(ast)) => {
+                let ver = ast.compiler_version.map(|v| json!([v.0, v.1, v.2]));
+                files.push(json!({"id": id, "parsed": true, "ver": ver, "main": ast.main_component.is_some(), "starts": starts}));
+                for definition in ast.definitions {
+                    match definition {
+                        Definition::Function { name, args, arg_location, body, .. } => {
+                            let f = FunctionData::new(name.clone(), id, body, args.len(), args, arg_location, &mut elem_id);
+                            let loc = f.get_param_location();
+                            defs.push(def_line("function", &name, f.get_name_of_params(), f.get_file_id(), loc.start, loc.end, f.get_body()));
+                        }
+                        Definition::Template { name, args, arg_location, body, parallel, is_custom_gate, .. } => {
+                            let t = TemplateData::new(name.clone(), id, body, args.len(), args, arg_location, &mut elem_id, parallel, is_custom_gate);
+                            let kind = if t.is_custom_gate() { "custom" } else { "template" };
+                            let loc = t.get_param_location();
+                            defs.push(def_line(kind, &name, t.get_name_of_params(), t.get_file_id(), loc.start, loc.end, t.get_body()));
+                        }
+                    }
+                }
+            }
+        }
+    }
+    json!({"files": files, "defs": defs}).to_string()
+}
+
 fn main() {
     silence_panics();
     let args: Vec<String> = std::env::args().collect();
     match args.get(1).map(|s| s.as_str()) {
         Some("content") => each_line(content),
         Some("code") => {
-            let code = program_structure::report_code::ReportCode::ParseFail;
-            println!("{}", json!({"id": code.id(), "name": code.name()}));
+            let code = ReportCode::ParseFail;
+            let one = |c: ReportCode| json!({"id": c.id(), "name": c.name()});
+            let cv = program_analysis::config::COMPILER_VERSION;
+            println!(
+                "{}",
+                json!({"id": code.id(), "name": code.name(),
+                       "codes": {
+                           "version_error": one(ReportCode::CompilerVersionError),
+                           "no_version": one(ReportCode::NoCompilerVersionWarning),
+                           "multiple_main": one(ReportCode::MultipleMainInComponent),
+                           "tuple": one(ReportCode::TupleError),
+                           "anonymous": one(ReportCode::AnonymousComponentError),
+                           "param_collision": one(ReportCode::ParameterNameCollision),
+                           "undefined": one(ReportCode::UninitializedSymbolInExpression),
+                       },
+                       "compiler_version": [cv.0, cv.1, cv.2]})
+            );
         }
+        Some("stages") => each_line(stages),
         _ => {
-            eprintln!("usage: front content|code");
+            eprintln!("usage: front content|code|stages");
             std::process::exit(2);
         }
     }
